@@ -37,7 +37,7 @@ RNPrograms(z) == FNPrograms(z) \cup { p \in CFPrograms(z) : Tier # "quick" } \cu
 RNCases(z) == { [Plain(p) EXCEPT !.naming = Naming(off)] : p \in RNPrograms(z), off \in RNOffsets }
 
 Cases(z) == CASE Family = "CF" -> { Plain(p) : p \in CFPrograms(z) }
-              [] Family = "FN" -> { Plain(p) : p \in FNPrograms(z) }
+              [] Family = "FN" -> { Plain(p) : p \in FNPrograms(z) \cup PRPrograms(z) }
               [] Family = "AR" -> { Plain(p) : p \in ARPrograms(z) }
               [] Family = "IO" -> IOCases(z)
               [] Family = "DICT" -> { Plain(p) : p \in DICTPrograms(z) }
